@@ -5,6 +5,7 @@
 package smtpd
 
 import (
+	"crypto/tls"
 	"bytes"
 	"fmt"
 	"io"
@@ -213,11 +214,166 @@ func NewEnv(c Cfg, lua string, storeCfg config.Storage) (*Env, error) {
 			return nil, err
 		}
 	}
+	if TLSMode {
+		cert, key, err := tlsFiles()
+		if err != nil {
+			return nil, fmt.Errorf("certificate: %v", err)
+		}
+		conf.SMTP.TLSEnabled, conf.SMTP.TLSCert, conf.SMTP.TLSPrivKey = true, cert, key
+	}
 	sm := &message.StoreManager{AddrPolicy: e.Policy, Store: e.Store, ExtHost: e.Host}
 	e.Manager = &RecManager{Manager: sm}
 	e.Server = smtp.NewServer(conf.SMTP, e.Manager, e.Policy, e.Host)
 	return e, nil
 }
+
+// TLSMode: the next NewEnv configures STARTTLS (INBUCKET_SMTP_TLSENABLED with a certificate made at run time).
+var TLSMode bool
+
+var (
+	tlsOnce          sync.Once
+	tlsCert, tlsKey  string
+	tlsErr           error
+)
+
+func tlsFiles() (string, string, error) {
+	tlsOnce.Do(func() {
+		dir, err := os.MkdirTemp(os.Getenv("VERIF_WORKDIR"), "tlscert")
+		if err != nil {
+			tlsErr = err
+			return
+		}
+		tlsCert, tlsKey, tlsErr = SelfSigned(dir)
+	})
+	return tlsCert, tlsKey, tlsErr
+}
+
+// SessionTLS plays a client that sends plain, waits for the server's "220 STARTTLS" (giving up after a second of
+// silence), upgrades the connection with a real TLS handshake if it came, sends secure (under TLS if upgraded, in
+// plaintext otherwise), ends its side and reads every reply. Returned: the replies received in plaintext followed by
+// the (decrypted) replies received afterwards - what the client saw, in order.
+func (e *Env) SessionTLS(plain, secure []byte) ([]byte, error) {
+	client, server0 := net.Pipe()
+	server := &addrConn{Conn: server0, l: &net.TCPAddr{IP: net.IPv4(127, 0, 0, 1), Port: 25},
+		r: &net.TCPAddr{IP: net.IPv4(127, 0, 0, 1), Port: 40000}}
+	done := make(chan struct{})
+	go func() {
+		defer close(done)
+		e.Server.VerifServe(server)
+	}()
+	var out bytes.Buffer
+	var conn net.Conn = client
+	upgraded := false
+	// awaitTLS reads reply lines until "220 STARTTLS" (then upgrades with a real handshake) or a second of silence
+	awaitTLS := func() error {
+		var line []byte
+		one := make([]byte, 1)
+		for {
+			conn.SetReadDeadline(time.Now().Add(time.Second))
+			n, err := conn.Read(one)
+			if n == 1 {
+				out.WriteByte(one[0])
+				line = append(line, one[0])
+				if one[0] == '\n' {
+					if string(line) == "220 STARTTLS\r\n" {
+						break
+					}
+					line = line[:0]
+				}
+			}
+			if err != nil {
+				conn.SetReadDeadline(time.Time{})
+				return nil
+			}
+		}
+		conn.SetReadDeadline(time.Time{})
+		tc := tls.Client(client, &tls.Config{InsecureSkipVerify: true})
+		client.SetDeadline(time.Now().Add(10 * time.Second))
+		if err := tc.Handshake(); err != nil {
+			return fmt.Errorf("TLS handshake: %v", err)
+		}
+		client.SetDeadline(time.Time{})
+		conn, upgraded = tc, true
+		return nil
+	}
+	fail := func(err error) ([]byte, error) {
+		client.Close()
+		<-done
+		return out.Bytes(), err
+	}
+	// the plaintext part is ONE segment (whatever is pipelined behind a STARTTLS line travels with it)
+	if len(plain) > 0 {
+		go func(c net.Conn) { c.Write(plain) }(conn)
+		if err := awaitTLS(); err != nil {
+			return fail(err)
+		}
+	}
+	// the rest: while not upgraded, a segment ends with each STARTTLS line and the client waits for its answer
+	rest := secure
+	lastWrite := make(chan struct{})
+	close(lastWrite)
+	for len(rest) > 0 {
+		seg := rest
+		if !upgraded {
+			off := 0
+			for off < len(rest) {
+				nl := bytes.IndexByte(rest[off:], '\n')
+				if nl < 0 {
+					off = len(rest)
+					break
+				}
+				ln := rest[off : off+nl+1]
+				off += nl + 1
+				if len(ln) >= 8 && strings.EqualFold(string(ln[:8]), "starttls") {
+					break
+				}
+			}
+			seg = rest[:off]
+		}
+		rest = rest[len(seg):]
+		wasUp := upgraded
+		wd := make(chan struct{})
+		lastWrite = wd
+		go func(c net.Conn, b []byte) { c.Write(b); close(wd) }(conn, seg)
+		if !wasUp && len(rest) > 0 {
+			if err := awaitTLS(); err != nil {
+				return fail(err)
+			}
+		}
+	}
+	if tc, ok := conn.(*tls.Conn); ok {
+		go func() { <-lastWrite; tc.CloseWrite() }()
+		conn.SetReadDeadline(time.Now().Add(20 * time.Second))
+		tail, _ := io.ReadAll(conn)
+		out.Write(tail)
+	} else {
+		// net.Pipe has no half-close: read until the server closes (QUIT) or stays silent for a second, then close
+		buf := make([]byte, 4096)
+		for {
+			conn.SetReadDeadline(time.Now().Add(time.Second))
+			n, err := conn.Read(buf)
+			out.Write(buf[:n])
+			if err != nil {
+				break
+			}
+		}
+	}
+	conn.Close()
+	select {
+	case <-done:
+	case <-time.After(60 * time.Second):
+		return out.Bytes(), fmt.Errorf("session did not end")
+	}
+	return out.Bytes(), nil
+}
+
+type addrConn struct {
+	net.Conn
+	l, r net.Addr
+}
+
+func (c *addrConn) LocalAddr() net.Addr  { return c.l }
+func (c *addrConn) RemoteAddr() net.Addr { return c.r }
 
 // Host0 creates the extension host (needed before the Lua host is attached to it).
 func (e *Env) Host0() *extension.Host {
@@ -583,10 +739,25 @@ func Exec(in []string) []string { return execWith(in, false) }
 
 func execWith(in []string, deferAll bool) []string {
 	c := ParseCfg(in[:NFields])
-	chunks, fin := ParseNet(in[NFields])
+	// "<plain hex>@<secure hex>": a server with STARTTLS configured; the client sends the first part in plaintext,
+	// upgrades the connection if the server answered "220 STARTTLS", and sends the second part (under TLS if upgraded)
+	var plain, secure []byte
+	tlsCase := strings.Contains(in[NFields], "@")
+	var chunks [][]byte
+	fin := "eof"
+	if tlsCase {
+		f := strings.SplitN(in[NFields], "@", 2)
+		plain, secure = vh.U(f[0]), vh.U(f[1])
+		chunks = [][]byte{plain, secure}
+		WriteLimit = -1
+	} else {
+		chunks, fin = ParseNet(in[NFields])
+	}
 	// parser facts for every line the session can see: a pause makes the bytes before it a line of their own
 	stream := bytes.Join(chunks, []byte("\n"))
+	TLSMode = tlsCase
 	env, err := NewEnv(c, "", config.Storage{MailboxMsgCap: 0})
+	TLSMode = false
 	if err != nil {
 		return []string{"SETUPERR", vh.HS(err.Error())}
 	}
@@ -599,7 +770,12 @@ func execWith(in []string, deferAll bool) []string {
 			return &event.SMTPResponse{Action: event.ActionDefer}
 		})
 	}
-	out, err := env.SessionNet(chunks, fin)
+	var out []byte
+	if tlsCase {
+		out, err = env.SessionTLS(plain, secure)
+	} else {
+		out, err = env.SessionNet(chunks, fin)
+	}
 	status := "ok"
 	if err != nil {
 		status = "err:" + vh.HS(err.Error())
